@@ -4,7 +4,8 @@
 From LC Require Import Lib.Bytes Lib.Lex Lib.Fields Lib.PathM Gen.Consts
   Model.MountInfo Model.FsTree Model.Kernel Model.Layers Cases.Verdict Cases.LC Cases.C16
   Proofs.MonadP Proofs.C15P Proofs.C10P Proofs.PathP
-  Proofs.C16FsP Proofs.C16MonadP Proofs.C16FrameP Proofs.C16ClobberP Proofs.C16PathP.
+  Proofs.C16FsP Proofs.C16MonadP Proofs.C16FrameP Proofs.C16ClobberP Proofs.C16PathP
+  Proofs.C16RenameP.
 Close Scope string_scope.
 Open Scope list_scope.
 Import LC LCS.
@@ -84,4 +85,48 @@ Proof.
   intros He Hc Hw. apply plain_env_plain in He. unfold world_ok in Hw. apply andb_true_iff in Hw as [Hnd Htr].
   rewrite view_after. cbn [wo_fs]. apply Rel_clobber_spec; [exact Hnd|exact Htr|].
   exact (never_clobbers_run cfg e um cmd (world_of w) He Hc).
+Qed.
+
+(* ------------------------------------------------------------------ (b) rename / remove *)
+(* the two sub-directories of the exports directory are relative paths of plain components *)
+Definition cfg_ok_links (c : cfgT) : bool := rel_ok (c_exp_binpkg c) && rel_ok (c_exp_gen c).
+
+Lemma cfg_ok_links_facts c : cfg_ok c = true -> cfg_ok_links c = true ->
+  forall n, legal_name n = true -> n <> [] ->
+    under (c_exports c) (C16.pkg_link c n) = true /\ under (c_exports c) (C16.gen_link c n) = true.
+Proof.
+  unfold cfg_ok, cfg_ok_links. intros H H2.
+  apply andb_true_iff in H as [H _]. apply andb_true_iff in H as [H _].
+  apply andb_true_iff in H as [H _]. apply andb_true_iff in H as [_ HdE].
+  apply andb_true_iff in H2 as [Hx Hy].
+  destruct (dir_ok_slcat _ HdE) as (csE & HEne & HEp & HE).
+  intros n. apply (HP_links_proof c csE); assumption.
+Qed.
+
+Lemma view_cmd c w e cmd um : v_cmd (view_of_model c w e cmd um) = cmd.
+Proof. unfold view_of_model. destruct (run e c um cmd (world_of w)). reflexivity. Qed.
+
+Lemma cmd_spec_rr c w v n : rr_of (v_cmd v) = Some n -> v_res v = ROk ->
+  cmd_spec c w v = rr_spec c n (wo_fs w) (wo_fs (v_after v)).
+Proof.
+  intros Hrr Hok. unfold cmd_spec. rewrite Hok.
+  destruct (v_cmd v); try discriminate Hrr; cbn [rr_of] in Hrr; injection Hrr as ->; reflexivity.
+Qed.
+
+Theorem C16_rename_remove_proof cfg w e cmd um n :
+  plain_env e = true -> cfg_ok cfg = true -> cfg_ok_links cfg = true -> world_ok cfg w = true ->
+  rr_of cmd = Some n -> v_res (view_of_model cfg w e cmd um) = ROk ->
+  rr_spec cfg n (wo_fs w) (wo_fs (v_after (view_of_model cfg w e cmd um))) = true.
+Proof.
+  intros He Hc Hcl Hw Hrr Hok. apply plain_env_plain in He.
+  unfold world_ok in Hw. apply andb_true_iff in Hw as [Hnd Htr].
+  destruct (cfg_ok_facts cfg Hc) as (H1 & H2 & H3 & H4 & H5 & H6 & H7 & H8 & H9).
+  pose proof (cfg_ok_links_facts cfg Hc Hcl) as H10.
+  rewrite view_after. cbn [wo_fs]. rewrite view_res in Hok. unfold run in *.
+  destruct (run_command e cfg um cmd (MkSt (world_of w) 0 [])) as [o st1] eqn:Hrun.
+  cbn [fst snd] in *. destruct o as [a| | | |]; try discriminate Hok.
+  destruct (run_rr_absent cfg H1 H2 H3 H4 H5 H6 H7 H8 H10 e He um cmd n Hrr _ _ _ I Hrun) as [A1 A2].
+  pose proof (run_rr_rel cfg H1 H2 H3 H4 H5 H6 H7 H8 e He um cmd n Hrr (MkSt (world_of w) 0 [])) as HR.
+  unfold st in HR. rewrite Hrun in HR. cbn [snd] in HR.
+  apply Rel_rr_spec; assumption.
 Qed.
